@@ -270,6 +270,10 @@ def gen_op(rng, w):
     if r < 0.71 and dense:
         t = rng.choice(dense)
         tc = w.objs[w.names[t][0]]['M'].tc
+        if tc != 'i' and rng.random() < 0.3:
+            return ['iop', t, '/=', {'k': 'num', 'v': rng.choice([2.0, -2.0, 0.5, 4.0, -1.0])}]      # exactly invertible divisors
+        if rng.random() < 0.1:
+            return ['iop', t, '%=', {'k': 'num', 'v': rng.choice([2, 3, -3]) if tc == 'i' else rng.choice([2.0, 3.0, -2.0])}]
         return ['iop', t, rng.choice(['+=', '-=', '*=']), {'k': 'num', 'v': DNS.mkval('i' if tc == 'i' else tc, rng)}]
     sparse_names = w.sorted_names(sparse=True)
     if r < 0.76 and sparse_names:
@@ -538,12 +542,19 @@ def apply(op, w, stats, rngless=None):
             MDL.inplace(M, op[2], v)
         except MDL.Refuse:
             return
+        X_before = X
         if op[2] == '+=':
             X += v
         elif op[2] == '-=':
             X -= v
+        elif op[2] == '/=':
+            X /= v
+        elif op[2] == '%=':
+            X %= v
         else:
             X *= v
+        if X is not X_before:
+            raise Mismatch('inplace-returned-new-object', 'A %s c on a dense matrix returned a new object' % op[2], op='iop', sparse=False)
         w.names[op[1]] = (oid, X)
         if any(vv['oid'] == oid and not vv['released'] for vv in w.views.values()):
             w.flags.add('mut_while_exported')
